@@ -134,3 +134,17 @@ Proof.
   intros H ck s t a Hs Ht.
   rewrite <- (address_canonical H ck s a Hs), <- (address_canonical H ck t a Ht). reflexivity.
 Qed.
+
+(* an accepted address text is ASCII: prefix, then characters of the base58 alphabet *)
+Theorem address_accepted_ascii : forall H ck s a,
+  of_string H ck s = Ok a ->
+  exists body, s = prefix ++ body /\ over_alphabet body /\ Forall (fun c => c < 128) s.
+Proof.
+  intros H ck s a Hs. pose proof (address_canonical H ck s a Hs) as Hc.
+  destruct a as [sp vw]. unfold to_string in Hc.
+  eexists. split; [symmetry; exact Hc|]. split; [apply encode_over_alphabet|].
+  rewrite <- Hc. apply Forall_app. split.
+  - apply Forall_forall. intros c Hin. vm_compute in Hin.
+    repeat (destruct Hin as [<-|Hin]; [reflexivity|]). destruct Hin.
+  - apply over_alphabet_ascii. apply encode_over_alphabet.
+Qed.
